@@ -15,7 +15,9 @@ CLAIMED = {
              "no rotation counter can wrap, backups are shifted i-1 -> i downwards from min(max-1, nbackups) before the "
              "old dump is renamed to backup 0, that rename happens exactly when a previous dump exists and precedes the "
              "truncating open - also when the rename is folded into the shift loop, in every counter state the manager can reach - "
-             "rename failures abort, the dump site closes the writer and a stop is dumped before resubmit. "
+             "rename failures abort, an explicit deletion in the rotation never removes a slot that holds a dump to be kept (stage from the "
+             "CFG, slot index and guards by finite case evaluation over the reachable counter states), the dump site closes the writer "
+             "and a stop is dumped before resubmit. "
              "The newest-first history claim follows by the pencil argument in DESIGN.md; crash timing is not explored.",
         note="Trusted: clang front end, AST export, atomic rename (POSIX); nothing else touches the dump files."),
 }
@@ -129,19 +131,24 @@ CLAIMED["C02"] = dict(
          "geometric signature used by C03/C10); each entry classification starts in the lower / upper / position-derived cell per axis; "
          "in the ray march every per-axis expression uses one axis, the upper face is used for positive direction, the surplus-path "
          "correction lands exactly on the target optical depth, each visited cell is credited once with the corrected length, and "
-         "INSIDE is returned iff the target was reached. The floating-point march itself is not decided.",
+         "INSIDE is returned iff the target was reached; for a vanishing direction component the wall distance of that axis is DBL_MAX / "
+         "+inf wherever the packet sits in the closed cell (abstract evaluation over {zero, nonneg, inf, NaN-possible, ...}). The "
+         "floating-point march itself is not decided.",
     note="Trusted: clang, AST export. Optical depth is linear in the path length within a cell (as coded in get_optical_depth).")
 CLAIMED["C03"] = dict(
     level="other", design="3/C03",
     technique="static analysis: partial evaluation of the four direction tables over the 27 directions against the code-derived geometric "
-              "signature; structural hand-over and field-set agreement rules; pairing rule on the CFG for containers that grow together",
+              "signature; structural hand-over and field-set agreement rules; pairing rule on the CFG for containers that grow together; "
+              "finite case evaluation (integer interpretation of the syntax tree) of the neighbour wiring",
     text="Decides the self-consistency of the hand-over bookkeeping for every layout: opposite-direction table is the geometric involution; "
          "the output/input compatibility tables test exactly the signs of the (opposite) signature; re-positioning snaps exactly the "
          "coordinates fixed by the entry classification; what leaves through direction i is tagged neighbour(i)/opposite(i) and stored in "
          "the buffer of the direction the traversal returned; the estimator fields a packet accumulates are the fields folded from copies "
          "and reset, over full extents, each copy folded once; the list of copies and the copy -> original map are reset together "
-         "wherever one of them is shrunk. Numeric equality between layouts and the neighbour wiring are not decided.",
-    note="Trusted: clang, AST export; signature from C02-T1; assumption A1 (mutual, geometrically correct neighbour tables).")
+         "wherever one of them is shrunk; and the neighbour table create_subgrid gives a subgrid is the geometric one (offset signature(d), "
+         "wrapped on periodic axes, OUTSIDE beyond a non-periodic face), by finite case evaluation of its integer code for 1, 2 and 3 "
+         "subgrids per axis, every periodicity and every subgrid. Numeric equality between layouts is not decided.",
+    note="Trusted: clang, AST export; signature from C02-T1; that more than 3 subgrids per axis add no new ordering of the compared indices.")
 
 CLAIMED["C10"] = dict(
     level="other", design="3/C10",
@@ -181,7 +188,8 @@ CLAIMED["C01"] = dict(
          "is cleared only under (no buffer in flight and done == requested), source batches equal what is counted as launched, external-source "
          "tasks announce their packets only after storing them, the flush is scheduled once and holds its block's lock, and photon batches "
          "are handed out under the source's lock, and the packet budgets of the source types add up to the requested number on every "
-         "set-up path. Quiescence detection under a racy schedule and the per-source split inside DistributedPhotonSource are not decided.",
+         "set-up path, and every traversal task depends on the lock of the subgrid whose index it stores. Quiescence detection under a racy "
+         "schedule and the per-source split inside DistributedPhotonSource are not decided.",
     note="Trusted: clang, AST export; C08 container guarantees; the run flag is a plain bool eventually seen by all workers.")
 
 CLAIMED["C20"] = dict(
